@@ -135,8 +135,11 @@ def r51(ctx):
 
 
 def run(ctx):
+    ctx.rule("R-5.2", "the restart file written after a step is written after the re-sorting (commit is final)", floor=1)
     ctx.rule("R-5.1", "path-number counter discipline (never reused, also across restarts)", floor=5)
     ctx.attempt(r51, ctx)
+    from .shared import commit_is_final
+    ctx.attempt(commit_is_final, ctx, "R-5.2")
 
 
 VARIANTS = [
@@ -147,6 +150,7 @@ VARIANTS = [
     B("c05-counter-not-persisted", REPEX, '        self.config["current"]["traj_num"] = traj_num\n', "", "R-5.1"),
     B("c05-initial-counter-too-small", SETUP, '            "traj_num": size,\n', '            "traj_num": size - 1,\n', "R-5.1"),
     B("c05-renumber-in-add-traj", REPEX, "        self._trajs[ens] = traj\n        self.state[ens, :] = valid", "        traj.path_number = ens\n        self._trajs[ens] = traj\n        self.state[ens, :] = valid", "R-5.1"),
+    B("c05-commit-before-sort", REPEX, "        self.sort_trajstate()\n        self.config[\"current\"][\"traj_num\"] = traj_num\n", "        self.config[\"current\"][\"traj_num\"] = traj_num\n        self.write_toml()\n        self.sort_trajstate()\n", "R-5.2", control=True, why="seeded C06_a"),
     K("c05-keep-plain-increment", REPEX, "                traj_num += 1\n", "                traj_num += 1  # next free number\n"),
     K("c05-keep-counter-renamed", REPEX, '        traj_num = self.config["current"]["traj_num"]', '        next_number = self.config["current"]["traj_num"]',
       also=[(REPEX, "                out_traj.path_number = traj_num\n", "                out_traj.path_number = next_number\n"),
